@@ -195,6 +195,41 @@ def delegates(ck, rid, facts, wrapper, core_name, key, receiver="self", effect=F
         ck.fail(rid, key, "rule could not be established (%s)" % e, where)
 
 
+def delegates_fn(ck, rid, facts, wrapper, core_name, key):
+    """A free `#[pyfunction]` wrapper is the core function on its own arguments, in order and unchanged (a full-range slice `&v[..]` of an argument is the
+    argument), and returns the core's result as it is (Ok-wrapped at most)."""
+    r = facts.fn(wrapper)
+    if r is None:
+        ck.fail(rid, key, "wrapper not found: " + wrapper)
+        return
+    where = "%s:%d" % (r["file"], r["line"])
+    calls = []
+
+    def whole(k):
+        if isinstance(k, tuple):
+            if len(k) == 4 and k[:2] == ("sym", "index") and "RangeFull" in repr(k[3]):
+                return whole(k[2])
+            return tuple(whole(x) for x in k)
+        return k
+
+    def core(ev, vals, e):
+        calls.append([whole(vkey(v)) for v in vals])
+        return Sym("core", core_name)
+    names = [p.get("name") for p in r["params"]]
+    args = [_param_value(n, t) for n, t in zip(names, r["sig"])]
+    try:
+        got = cel.strip_early(cel.Ev(facts, hooks={"::" + core_name: core}).apply_fn(wrapper, args, 0))
+        want_args = [vkey(a) for a in args]
+        ok = len(calls) == 1 and calls[0] == want_args
+        why = "the wrapper does not call %s exactly once with (%s): calls %s" % (core_name, ", ".join(names), repr(calls)[:300])
+        if ok:
+            ok = vkey(got) in (vkey(Sym("core", core_name)), vkey(Sym("ctor", "Ok", Sym("core", core_name))))
+            why = "the wrapper does not return the core result unchanged: %s" % cel.vfmt(got)[:300]
+        ck.check(rid, key, ok, why, where, sample="%s(%s)" % (core_name, ", ".join(names)))
+    except Unsupported as e:
+        ck.fail(rid, key, "rule could not be established (%s)" % e, where)
+
+
 def run_calendar_wrappers(ck, facts):
     if ck.rules.get("R05.6", {}).get("obligations"):
         return            # already evaluated in this run (included by more than one rule module)
@@ -209,10 +244,11 @@ def run_curve_wrappers(ck, facts):
     if ck.rules.get("R12.4", {}).get("obligations"):
         return            # already evaluated in this run (included by more than one rule module)
     r4 = ck.rule("R12.4", "the Python-facing Curve is the core curve: curve[date] = inner.interpolated_value(date), index_value(date) = inner.index_value(date), "
-                          "set_ad_order(ad) = one inner.set_ad_order(ad) — no extra branches, no second call", floor=3)
+                          "set_ad_order(ad) = one inner.set_ad_order(ad) — no extra branches, no second call; the exported index_left_f64 is index_left on its own arguments", floor=4)
     delegates(ck, r4, facts, "curves::curve_py::Curve::__getitem__", "interpolated_value", "Curve::__getitem__", receiver="inner")
     delegates(ck, r4, facts, "curves::curve_py::Curve::index_value_py", "index_value", "Curve::index_value", receiver="inner")
     delegates(ck, r4, facts, "curves::curve_py::Curve::set_ad_order", "set_ad_order", "Curve::set_ad_order", receiver="inner", effect=True)
+    delegates_fn(ck, r4, facts, "curves::interpolation::interpolation_py::index_left_f64", "index_left", "py:index_left_f64")          # the exported interval search is the core one
 
 
 def run_fx_wrappers(ck, facts):
@@ -232,7 +268,7 @@ def run_spline_wrappers(ck, facts):
         return
     r6 = ck.rule("R15.6", "PPSpline::bspldnev(x, i, m) = [bspldnev_single_f64(x_j, i, k, t, m, None) for every x_j] (no filtering); the Python-facing methods of the three "
                           "spline classes: ppev*/ppdnev* evaluate order 0 resp. the given m, a float abscissa is promoted to the method's own number kind with no variables, "
-                          "the matching kind is passed through, any other kind gives Err; bsplev/bspldnev/csolve delegate with their own arguments in order", floor=70)
+                          "the matching kind is passed through, any other kind gives Err; bsplev/bspldnev/csolve delegate with their own arguments in order; the exported bsplev_single/bspldnev_single are the f64 kernels on their own arguments", floor=72)
     SP = "splines::spline::"
     D1, D2 = "dual::dual::Dual", "dual::dual::Dual2"
     # --- the vectorised evaluator of the core type
@@ -252,6 +288,9 @@ def run_spline_wrappers(ck, facts):
                  sample="x.iter().map(|v| bspldnev_single_f64(v, i, k, t, m, None)).collect()")
     except Unsupported as e:
         ck.fail(r6, "PPSpline::bspldnev", "rule could not be established (%s)" % e, where)
+    # --- the exported free functions
+    delegates_fn(ck, r6, facts, "splines::spline_py::bsplev_single", "bsplev_single_f64", "py:bsplev_single")
+    delegates_fn(ck, r6, facts, "splines::spline_py::bspldnev_single", "bspldnev_single_f64", "py:bspldnev_single")
     # --- Python-facing classes
     core = lambda name: (lambda ev, vals, e: Sym("core", name, *[vkey(v) for v in vals]))
     # only the core type's methods are summarised (the Python-facing siblings of the same name are inlined: `bsplev` may call the wrapper `bspldnev(x, i, 0)`)
